@@ -240,6 +240,12 @@ func (c *Config) cert(hostname string) (*tls.Certificate, error) {
 		hostname = host
 	}
 
+	// Without SNI and without a fallback host there is no name to forge a
+	// certificate for; refuse the handshake like TLS() does.
+	if hostname == "" {
+		return nil, errors.New("mitm: no hostname provided, failed to build certificate")
+	}
+
 	c.certmu.RLock()
 	tlsc, ok := c.certs[hostname]
 	c.certmu.RUnlock()
